@@ -38,13 +38,13 @@ EXEMPT = {
 }
 
 
-def visitor_methods():
+def visitor_methods(module=None, clsname="TypeIndirectionVisitor"):
     tree, _ = None, None
     import inspect
 
-    src = inspect.getsource(IND)
+    src = inspect.getsource(module or IND)
     tree = ast.parse(src)
-    cls = next(n for n in tree.body if isinstance(n, ast.ClassDef) and n.name == "TypeIndirectionVisitor")
+    cls = next(n for n in tree.body if isinstance(n, ast.ClassDef) and n.name == clsname)
     out = {}
     for m in cls.body:
         if isinstance(m, ast.FunctionDef) and m.name.startswith("visit_") and len(m.args.args) >= 2:
@@ -308,3 +308,55 @@ def targets_patch(tier):
     return [Target("indirect.patch_indirect_dependencies.entry", "mypy.build:State.patch_indirect_dependencies", setup_patch, loop_body=("for dep in sorted(encountered - existing_deps)", None),
                    ensures=[("encountered-module-of-this-build-becomes-an-indirect-dependency", ens_patch)], raises=(), overrides=ov, field_types={},
                    note="one generic encountered module that is not yet a dependency")]
+
+
+# ---- the same coverage frame for the fine-grained dependency side (C03): the types a target depends on are
+# collected by server/deps.py TypeTriggersVisitor; each component type of a Type class must be looked at by its
+# visitor method, or the daemon never re-checks the target when that component's definition changes
+
+TRIGGER_EXEMPT = {
+    ("Instance", "last_known_value"): "a LiteralType whose fallback is this very Instance type",
+    ("Instance", "extra_attrs"): "module attribute narrowing: analysis-local",
+    ("CallableType", "fallback"): "documented in the visitor: the fallback is a metaclass type for class objects and is processed separately",
+    ("CallableType", "variables"): "ASSUMED: bounds / defaults of a callable's own type variables reach the dependency map through the definition of the function",
+    ("Parameters", "variables"): "ASSUMED: as for CallableType.variables",
+    ("TypeVarTupleType", "tuple_fallback"): "builtins.tuple[object, ...]",
+    ("AnyType", "source_any"): "an AnyType: names nothing",
+    ("TupleType", "partial_fallback"): None,
+    ("UnboundType", "args"): "an UnboundType does not survive semantic analysis: the type map the triggers are computed from holds none",
+}
+TRIGGER_EXEMPT = {k: v for k, v in TRIGGER_EXEMPT.items() if v}
+
+
+def check_trigger_cover():
+    from frames import fixupcover as FC
+    import mypy.server.deps as DEPS
+
+    vm = visitor_methods(DEPS, "TypeTriggersVisitor")
+    rows = []
+    for name, cls in FC._classes("mypy/types.py").items():
+        nested = FC.written_nested(cls)
+        meth = FC.accept_target(cls) if nested else None
+        if not nested or meth is None:
+            continue
+        for a in sorted(nested):
+            rows.append((name, meth, a))
+    if len(rows) < 20:
+        return [{"name": "trigger-cover/scan", "status": "unknown", "where": f"only {len(rows)} nested written types found"}]
+    obs = []
+    for cls, meth, attr in rows:
+        if meth in vm and (attr in vm[meth] or attr.lstrip("_") in vm[meth]):
+            obs.append({"name": f"trigger-cover/{cls}.{attr}", "status": "discharged", "where": f"mypy/server/deps.py {meth}"})
+        elif (cls, attr) in TRIGGER_EXEMPT:
+            obs.append({"name": f"trigger-cover/exempt/{cls}.{attr}", "status": "discharged", "where": str(meth), "detail": TRIGGER_EXEMPT[(cls, attr)]})
+        elif meth not in vm or "*delegated*" in vm[meth]:
+            obs.append({"name": f"trigger-cover/{cls}.{attr}", "status": "unknown", "where": f"no TypeTriggersVisitor method {meth}, or it hands the type on to a helper"})
+        else:
+            obs.append({"name": f"trigger-cover/{cls}.{attr}", "status": "refuted", "where": f"mypy/server/deps.py {meth}",
+                        "detail": f"{cls}.{attr} is a component type of {cls} but {meth} never looks at it: a target using such a type is not re-checked when what {attr} refers to changes",
+                        "key": f"trigger-cover:{cls}.{attr}", "confirmed": True})
+    return obs
+
+
+def targets_trigger_cover(tier):
+    return [StaticCheck("deps.type_triggers.cover", check_trigger_cover, note="component types of every Type class are looked at by its TypeTriggersVisitor method (syntactic)")]
